@@ -370,16 +370,25 @@ void configure_from_seed(uint64_t seed) {
 // ---------------------------------------------------------------------------
 // scheduler core
 // ---------------------------------------------------------------------------
-static inline void record_switch(Task* to) {
-    if (G.record) { G.trace.push_back((uint32_t)G.steps); G.trace.push_back((uint32_t)to->id); }
+// trace entries are pairs (step, value): value = task id (context switch), TR_STALL|ns (injected stall of the running task),
+// TR_WAKE|task id (which of several waiters a wake-one picked).  An edited (minimised) trace may contain entries that no longer
+// apply; they are skipped.
+// TR_FORCED marks a switch made because the running task could not continue (blocked, spinning, exited) as opposed to a pre-emption
+// at a scheduling point: the two are taken at different places within one step.
+static const uint32_t TR_STALL = 0x80000000u, TR_WAKE = 0x40000000u, TR_FORCED = 0x20000000u;
+static inline void rp_skip_stale() {
+    while (G.rpi + 1 < G.rpn && G.rp[G.rpi] < (uint32_t)G.steps) G.rpi += 2;
+}
+static inline void record_switch(Task* to, bool forced) {
+    if (G.record) { G.trace.push_back((uint32_t)G.steps); G.trace.push_back((uint32_t)to->id | (forced ? TR_FORCED : 0)); }
     fold(0x5357ULL ^ ((uint64_t)to->id << 32) ^ G.steps);
 }
 
-static void switch_to(Task* n) {
+static void switch_to(Task* n, bool forced = false) {
     Task* t = self;
     if (n == t) return;
     G.switches++;
-    record_switch(n);
+    record_switch(n, forced);
     // (streaks are not reset here: a task that is pre-empted again and again by a sleeper's wake-ups must still be demoted after
     //  its 6000 steps, or a spinning task of high priority starves the one it waits for)
     __atomic_store_n(&t->fut, 0, __ATOMIC_RELAXED);
@@ -437,8 +446,9 @@ static Task* pick_next(Task* exclude, bool must_switch) {
             default_deadlock();
         }
         if (G.replay) {
-            if (G.rpi + 1 < G.rpn && G.rp[G.rpi] == (uint32_t)G.steps) {
-                uint32_t id = G.rp[G.rpi + 1]; G.rpi += 2;
+            rp_skip_stale();
+            if (must_switch && G.rpi + 1 < G.rpn && G.rp[G.rpi] == (uint32_t)G.steps && (G.rp[G.rpi + 1] & (TR_STALL | TR_WAKE | TR_FORCED)) == TR_FORCED) {
+                uint32_t id = G.rp[G.rpi + 1] & ~TR_FORCED; G.rpi += 2;
                 for (int i = 0; i < n; i++) if ((uint32_t)cand[i]->id == id) return cand[i];
             }
             return cand[0];
@@ -469,7 +479,7 @@ static bool block_on(const void* obj, uint64_t deadline) {
     if (deadline && deadline < G.next_deadline) G.next_deadline = deadline;
     G.steps++;
     Task* n = pick_next(t, true);
-    switch_to(n);
+    switch_to(n, true);
     t->wobj = nullptr;
     return t->timed_out;
 }
@@ -482,7 +492,17 @@ static void wake_obj(const void* obj, bool one) {
     }
     if (!n) return;
     if (one) {
-        Task* t = cand[G.replay ? 0 : G.srng.below(n)];
+        Task* t = cand[0];
+        if (G.replay) {
+            rp_skip_stale();
+            if (G.rpi + 1 < G.rpn && G.rp[G.rpi] == (uint32_t)G.steps && (G.rp[G.rpi + 1] & TR_WAKE)) {
+                uint32_t id = G.rp[G.rpi + 1] & ~TR_WAKE; G.rpi += 2;
+                for (int i = 0; i < n; i++) if ((uint32_t)cand[i]->id == id) t = cand[i];
+            }
+        } else {
+            t = cand[G.srng.below(n)];
+            if (G.record && n > 1) { G.trace.push_back((uint32_t)G.steps); G.trace.push_back(TR_WAKE | (uint32_t)t->id); }
+        }
         fold(0x77ULL ^ t->id);
         t->st = T_RUN; t->deadline = 0; t->timed_out = false;
     } else {
@@ -492,8 +512,9 @@ static void wake_obj(const void* obj, bool one) {
     recompute_deadline();
 }
 
-static void do_stall(Task* t) {
-    uint64_t ns = 1000 + G.srng.below(cfg.stall_max_ns);
+static void do_stall(Task* t, uint64_t ns = 0) {
+    if (!ns) ns = 1000 + G.srng.below(cfg.stall_max_ns);
+    if (G.record) { G.trace.push_back((uint32_t)G.steps); G.trace.push_back(TR_STALL | (uint32_t)ns); }
     fault_fired("task_stall");
     note("stall task %d for %llu ns", t->id, (unsigned long long)ns);
     G.stall_time += ns;
@@ -514,14 +535,20 @@ static inline void sched_point(Task* t, int kind) {
     if (__builtin_expect(G.steps > cfg.max_steps, 0))
         finish(G.budget_status, G.budget_class, "step budget %llu exhausted", (unsigned long long)cfg.max_steps);
     if (G.replay) {
-        if (G.rpi + 1 < G.rpn && G.rp[G.rpi] <= (uint32_t)G.steps) {
-            if (G.rp[G.rpi] == (uint32_t)G.steps) {
-                uint32_t id = G.rp[G.rpi + 1]; G.rpi += 2;
+        rp_skip_stale();
+        if (G.rpi + 1 < G.rpn && G.rp[G.rpi] == (uint32_t)G.steps) {
+            uint32_t v = G.rp[G.rpi + 1];
+            if (v & TR_STALL) {
+                G.rpi += 2;
+                if (G.ntasks > 1) { do_stall(t, v & ~TR_STALL); return; }
+            } else if (!(v & (TR_WAKE | TR_FORCED))) {
+                G.rpi += 2;
+                uint32_t id = v;
                 if (id < (uint32_t)G.ntasks && G.tasks[id] != t && G.tasks[id]->st != T_DEAD && G.tasks[id]->st != T_BLOCKED) {
                     if (G.tasks[id]->st == T_SPIN) { G.tasks[id]->st = T_RUN; G.nspin--; }
                     switch_to(G.tasks[id]);
                 }
-            } else G.rpi += 2;   // stale entry of an edited trace
+            }
         }
         return;
     }
@@ -580,7 +607,7 @@ static inline void spin_observe(Task* t, const volatile void* a, uint64_t v) {
             t->st = T_SPIN; t->spin_since = G.steps; G.nspin++;
             Task* n = pick_next(t, true);
             if (t->st == T_SPIN) { if (n == t) { t->st = T_RUN; G.nspin--; } }
-            if (n != t) switch_to(n);
+            if (n != t) switch_to(n, true);
             if (t->st == T_SPIN) { t->st = T_RUN; G.nspin--; }
         }
     } else { t->spin_addr = a; t->spin_val = v; t->spin_cnt = 0; }
@@ -657,7 +684,7 @@ static void* trampoline(void* a) {
     wake_obj(t, false);
     G.steps++;
     Task* n = pick_next(t, true);
-    record_switch(n);
+    record_switch(n, true);
     G.switches++;
     G.reap_task = t; G.reap_succ = n;
     __atomic_store_n(&G.reap_fut, 1, __ATOMIC_RELEASE);
